@@ -57,7 +57,9 @@ func (c Case) opt(d int) string { return dims[d].opts[c.Idx[d]] }
 
 func buildOCI(c Case) *oci.Spec {
 	s := &oci.Spec{Version: "1.1.0", Hostname: "keep", Root: &oci.Root{Path: "rootfs"}, Annotations: map[string]string{"keep": "me"}}
-	env := []string{"PATH=/bin", "VAR=old", "OTHER=keep", "EMPTY="}
+	// besides the variables the edits name, variables whose names extend or are a prefix of an
+	// edited name, or differ in case: they must keep their values
+	env := []string{"PATH=/bin", "VAR=old", "OTHER=keep", "EMPTY=", "VAR_EXTRA=keep", "VA=keep", "NEWER=keep", "NE=keep", "REP2=keep", "var=lower-case", "EMPTY_X=keep"}
 	switch c.opt(0) {
 	case "nil":
 	case "root-env":
